@@ -153,6 +153,9 @@ func runScript(t *testing.T, run *vt.Run, c vt.CaseID, rng *rand.Rand, gossip bo
 			}
 			in.FreshJoin = (!exists || len(e.Tokens) == 0) && !fileTokens
 			in.EntryAbsentAtStart = !exists
+			if exists && len(e.Tokens) == id.cfg.NumTokens && id.cfg.TokensFile == "" && e.State != ring.LEFT {
+				in.InheritedTokens = append([]uint32(nil), e.Tokens...)
+			}
 			id.incs = append(id.incs, in)
 			all = append(all, in)
 			if err := in.Start(); err != nil {
@@ -308,7 +311,7 @@ func runScript(t *testing.T, run *vt.Run, c vt.CaseID, rng *rand.Rand, gossip bo
 		synctest.Wait()
 		st.Release()
 		synctest.Wait()
-		ck := lcsim.Checker{Store: st, Insts: all, Marks: marks, T0: t0, EndAt: end, ClaimVictims: victims, Records: rlog.Records()}
+		ck := lcsim.Checker{Store: st, Insts: all, Marks: marks, T0: t0, EndAt: end, ClaimVictims: victims, Records: rlog.Records(), CheckInherited: !gossip}
 		findings, stats := ck.Check()
 		for _, f := range findings {
 			viol(f.Sig, f.What, f.Detail)
@@ -325,7 +328,7 @@ func runScript(t *testing.T, run *vt.Run, c vt.CaseID, rng *rand.Rand, gossip bo
 
 func TestC08(t *testing.T) {
 	run := vt.NewRun("C08", "exploration")
-	run.SetRule("case = one action script on 1-5 real lifecyclers (full Lifecycler: join-after 0/1/10/300 s, observe 0/3/7 s, tokens file or not, unregister on/off, readiness ring check on/off, min-ready 0/15 s; BasicLifecycler with InstanceRegisterDelegate under TokensPersistency/LeaveOnStopping/AutoForget delegates; heartbeat period 5/2 s or disabled) sharing one recording store inside a synctest bubble: start, stop, restart of the same identity, external state changes (hand-over flow and illegal requests), read-only toggles, token claims, readiness polls, time advances, injected CAS conflicts; afterwards a log checker over every written ring version with its writer and virtual commit time checks: only the own entry edited (hand-over and auto-forget excepted), legal state edges within an incarnation and across restarts, heartbeat stamp monotone and written once per period while running, registration time kept, (re)registration stamped now, token lists sorted/unique, a freshly joined instance turns ACTIVE with exactly the configured number of tokens none of which was another instance's token in the version it read; the first nil of CheckReady per incarnation is judged against the ring version served to that very call. non-trivial = more than 3 own writes; distinct by (configuration, action script).")
+	run.SetRule("case = one action script on 1-5 real lifecyclers (full Lifecycler: join-after 0/1/10/300 s, observe 0/3/7 s, tokens file or not, unregister on/off, readiness ring check on/off, min-ready 0/15 s; BasicLifecycler with InstanceRegisterDelegate under TokensPersistency/LeaveOnStopping/AutoForget delegates; heartbeat period 5/2 s or disabled) sharing one recording store inside a synctest bubble: start, stop, restart of the same identity, external state changes (hand-over flow and illegal requests), read-only toggles, token claims, readiness polls, time advances, injected CAS conflicts; afterwards a log checker over every written ring version with its writer and virtual commit time checks: only the own entry edited (hand-over and auto-forget excepted), legal state edges within an incarnation and across restarts, heartbeat stamp monotone and written once per period while running, registration time kept, (re)registration stamped now, token lists sorted/unique, an incarnation that found its complete token list in the ring turns ACTIVE with exactly that list (recording store), a freshly joined instance turns ACTIVE with exactly the configured number of tokens none of which was another instance's token in the version it read; the first nil of CheckReady per incarnation is judged against the ring version served to that very call. non-trivial = more than 3 own writes; distinct by (configuration, action script).")
 	run.ForEachT(t, "scripts", vt.N(500, 15000), func(t *testing.T, c vt.CaseID, rng *rand.Rand, s *vt.Slot) {
 		s.Enter(c, "crash/scripts")
 		runScript(t, run, c, rng, false)
